@@ -180,6 +180,8 @@ fn judge(rep: &mut Report, sc: &Scenario, main_bytes: &[(String, Vec<u8>)], lib_
     for c in &cands {
         rep.count(&format!("methods.{}", match c.expect { Expect::Must => "must_bridge", Expect::May => "open", Expect::MustNot => "must_not" }));
         if c.expect == Expect::MustNot && c.why != "not synthetic" { rep.seen("near_miss_reasons", c.why); }
+        for v in &c.early_stop_traps { rep.count(&format!("hierarchy.unflagged_bridge_deciding_super_type_behind_already_visited_parent.{v}")); }
+        if c.redundant_hierarchy { rep.count("hierarchy.unflagged_bridge_decided_in_hierarchy_with_redundant_parent"); }
         if c.expect == Expect::Must { rep.seen("must_reasons", c.why); for o in &c.ops { rep.seen("invoke_opcodes_in_must_bridges", &o.to_string()); } }
     }
     if source.starts_with("corpus") { rep.add("corpus.must_bridges", cands.iter().filter(|c| c.expect == Expect::Must).count() as u64); }
@@ -249,6 +251,8 @@ fn main() {
         for k in gen::KINDS { meta.oblige(format!("motif {k}: generated >= 20 times"), rep.get(&format!("kind.{k}")) >= 20); }
         for k in ["target.inserted", "target.overwritten", "target.overwritten_with_children", "target.already_same", "target.had_no_named_name", "target.class_lacks",
             "name.unchanged_intermediary_name", "name.own_class_entry", "name.super_type_depth1", "name.super_type_depth2plus", "name.walk_passes_class_without_entry", "name.from_entry_of_a_library_class", "calamus.walk_passes_class_without_entry",
+            "hierarchy.unflagged_bridge_deciding_super_type_behind_already_visited_parent.stack_order", "hierarchy.unflagged_bridge_deciding_super_type_behind_already_visited_parent.queue_order",
+            "hierarchy.unflagged_bridge_deciding_super_type_behind_already_visited_parent.recursive_preorder", "hierarchy.unflagged_bridge_decided_in_hierarchy_with_redundant_parent",
             "jar.zip", "jar.parsed", "jar.with_library", "open.detected", "scenarios.expected_unchanged"] {
             meta.oblige(format!("at least 10 cases with {k}"), rep.get(k) >= 10);
         }
